@@ -71,11 +71,17 @@ Inductive seg :=
 | CloseRemove (u : uri)
 | ClosePublish (u : uri).
 
+(* uris below 100 are file: uris; the others (untitled:, ...) have no file path, and
+   collect_dependency_modules returns before it touches the document map *)
+Definition is_file (u : uri) : bool := u <? 100.
+Definition deps_segs (u : uri) (t : text) : list seg :=
+  if is_file u then DepsRead :: map DepsPublish (timports t) else [].
+
 (* segments AFTER the start step *)
 Definition of_note (vr : variant) (n : note) : list seg :=
   match n with
   | Doc _ u v t =>
-      if tok t then DepsRead :: map DepsPublish (timports t) ++ [Store u v t; Publish u v t]
+      if tok t then deps_segs u t ++ [Store u v t; Publish u v t]
       else match vr with
            | Faithful => [Guard u; Publish u v t]
            | Repaired => [Store u v t; Publish u v t]
@@ -279,26 +285,59 @@ Definition render_doc (st : state) (u : uri) : Z * Z :=
   match docs st u with Some (v, t) => (v, tid t) | None => (-1, -1) end.
 Definition lock_code (st : state) : Z :=
   match writer st with Some _ => 2 | None => if is_nil (readers st) then 0 else 1 end.
-(* after each step: stored (version, text id) of the watched documents, lock state, #publications *)
-Definition snapshot (ws : list uri) (st : state) : list (Z * Z) * Z * Z :=
-  (map (render_doc st) ws, lock_code st, Z.of_nat (length (pubs st))).
+(* which arm of `step`/`exec` a schedule entry takes (recorded per run: coverage["model_arm_hits"]):
+   0 start | 1/2 DepsRead keeps/drops the read guard | 3/4 DepsPublish publishes (keeps/drops guard) |
+   5/6 DepsPublish skips an open document (keeps/drops) | 7/8 Store passes/stale ticket | 9/10 Guard
+   passes/stale | 11 Publish | 12/13 CloseRemove passes/stale | 14 ClosePublish |
+   not enabled: 20 DepsRead while a writer holds the lock | 21 store/guard/remove while a writer holds it |
+   22 ... while readers hold it | 23 start with 4 handlers in flight | 24 start out of arrival order or
+   beyond the history | 25 step of a finished handler *)
+Definition wr_arm (st : state) (u : uri) (k : nat) (pass stale : Z) : Z :=
+  if lock_free st then (if has_ticket st u k then pass else stale) else (if no_writer st then 22 else 21).
+Definition arm (h : list note) (st : state) (k : nat) : Z :=
+  if Nat.ltb k (started st) then
+    match segs st k with
+    | [] => 25
+    | s :: rest =>
+        match s with
+        | DepsRead => if no_writer st then (if holds_read rest then 1 else 2) else 20
+        | DepsPublish u' =>
+            match docs st u' with
+            | None => if holds_read rest then 3 else 4
+            | Some _ => if holds_read rest then 5 else 6
+            end
+        | Store u _ _ => wr_arm st u k 7 8
+        | Guard u => wr_arm st u k 9 10
+        | Publish _ _ _ => 11
+        | CloseRemove u => wr_arm st u k 12 13
+        | ClosePublish _ => 14
+        end
+    end
+  else if Nat.eqb k (started st) then
+    (if Nat.ltb (inflight st) 4 then match nth_error h k with Some _ => 0 | None => 24 end else 23)
+  else 24.
+
+(* after each step: stored (version, text id) of the watched documents, lock state, #publications, arm *)
+Definition snapshot (ws : list uri) (st : state) (a : Z) : list (Z * Z) * Z * Z * Z :=
+  (map (render_doc st) ws, lock_code st, Z.of_nat (length (pubs st)), a).
 
 Fixpoint trace_from (vr : variant) (h : list note) (ws : list uri) (st : state) (sch : list nat)
-  : list (list (Z * Z) * Z * Z) * option state :=
+  : list (list (Z * Z) * Z * Z * Z) * option state * Z :=
   match sch with
-  | [] => ([], Some st)
+  | [] => ([], Some st, -1)
   | k :: r => match step vr h st k with
-              | Some st' => let '(tr, fin) := trace_from vr h ws st' r in (snapshot ws st' :: tr, fin)
-              | None => ([], None)
+              | Some st' => let '(tr, fin, bad) := trace_from vr h ws st' r in
+                            (snapshot ws st' (arm h st k) :: tr, fin, bad)
+              | None => ([], None, arm h st k)
               end
   end.
 
-(* (legal?, quiescent?, per-step snapshots, publications oldest first) *)
+(* (legal?, quiescent?, per-step snapshots, publications oldest first, arm of the refused step or -1) *)
 Definition render (vr : variant) (ws : list uri) (h : list note) (sch : list nat)
-  : Z * Z * list (list (Z * Z) * Z * Z) * list (Z * Z * (Z * Z)) :=
+  : Z * Z * list (list (Z * Z) * Z * Z * Z) * list (Z * Z * (Z * Z)) * Z :=
   match trace_from vr h ws init sch with
-  | (tr, Some st) => (1, if quiescentb h st then 1 else 0, tr, rev (map render_pub (pubs st)))
-  | (tr, None) => (0, 0, tr, [])
+  | (tr, Some st, bad) => (1, if quiescentb h st then 1 else 0, tr, rev (map render_pub (pubs st)), bad)
+  | (tr, None, bad) => (0, 0, tr, [], bad)
   end.
 
 (* the class as a predicate on a history *)
